@@ -551,6 +551,10 @@ def features_with_grammar(f, grammar) -> List[str]:
 
         def walk(g):
             if isinstance(g, list) and g:
+                if g[0] == "count" and g[1][1] in types and g[1][1] != "start":
+                    t = types[g[1][1]]
+                    if t in r.get(t, ()):
+                        out.add("count_on_quantified_variable_of_recursive_nonterminal")
                 if g[0] == "smt":
                     vs = set()
                     tvars(g[1], vs)
